@@ -235,14 +235,15 @@ Proof. unfold cview_ok, cview_okb. intros H. apply andb_prop in H as [H _]. lia.
 
 Lemma cview_ok_text cv rws mc :
   cview_ok cv -> cknd (ccanv cv) = LText rws mc ->
-  Forall (fun r : row => zlen r = mc) rws /\ 0 <= tl cv /\ tl cv + ccols cv <= mc /\ 0 <= tt cv /\ tt cv + crows cv <= zlen rws.
+  Forall (fun r : row => zlen r = mc /\ row_cleanb r = true) rws /\ 0 <= tl cv /\ tl cv + ccols cv <= mc /\ 0 <= tt cv /\ tt cv + crows cv <= zlen rws.
 Proof.
   unfold cview_ok, cview_okb. intros H E. rewrite E in H.
   apply andb_prop in H as [_ H].
   apply andb_prop in H as [H H4]. apply andb_prop in H as [H H3].
   apply andb_prop in H as [H H2]. apply andb_prop in H as [H H1].
   repeat split; try lia.
-  apply Forall_forall. intros r Hr. rewrite forallb_forall in H. specialize (H r Hr). lia.
+  apply Forall_forall. intros r Hr. rewrite forallb_forall in H. specialize (H r Hr).
+  apply andb_prop in H as [Ha Hb]. split; [lia|assumption].
 Qed.
 
 Lemma cview_content_ok cv : cview_ok cv -> cview_content cv = Ok (rows_of cv).
@@ -290,7 +291,7 @@ Proof.
   - destruct (cview_ok_text _ _ _ H E) as (Hw & ? & ? & ? & ?).
     rewrite (rows_of_text _ _ _ H E). apply Forall_forall. intros r Hr. apply in_map_iff in Hr as (r0 & <- & Hr0).
     apply zlen_text_row; try lia.
-    assert (Forall (fun r : row => zlen r = maxcol) (takez (crows cv) (dropz (tt cv) rows))) as F
+    assert (Forall (fun r : row => zlen r = maxcol /\ row_cleanb r = true) (takez (crows cv) (dropz (tt cv) rows))) as F
         by (apply Forall_takez, Forall_dropz, Hw).
     rewrite Forall_forall in F. now apply F.
   - rewrite (rows_of_solid _ _ _ _ _ E). unfold solid_content. apply Forall_repeatz. rewrite zlen_repeatz. lia.
@@ -370,4 +371,191 @@ Proof.
   unfold cview_fill_attr. destruct (cam cv) as [old|]; cbn [tl tt ccols crows cam ccanv].
   - rewrite map_map. apply map_ext. intros r. rewrite map_map. apply map_ext. intros c. apply cell_map_attr_compose.
   - rewrite map_map. apply map_ext. intros r. rewrite map_map. apply map_ext. intros c. now rewrite cell_map_attr_none.
+Qed.
+
+(* ------------------------------------------------------------------ clean rows and windows *)
+Lemma fix_left_clean r : first_okb r = true -> fix_left r = r.
+Proof. destruct r as [|c r]; [reflexivity|]. cbn [first_okb fix_left]. destruct (ck c); [reflexivity|reflexivity|discriminate]. Qed.
+Lemma fix_right_clean r : last_okb r = true -> fix_right r = r.
+Proof.
+  induction r as [|c r IH]; [reflexivity|]. cbn [last_okb fix_right]. destruct r as [|c' r'].
+  - destruct (ck c); [reflexivity|discriminate|reflexivity].
+  - intros H. now rewrite IH.
+Qed.
+Lemma first_okb_fix_left r : first_okb (fix_left r) = true.
+Proof. destruct r as [|c r]; [reflexivity|]. cbn [fix_left]. destruct (ck c) eqn:E; cbn [first_okb space ck]; now rewrite ?E. Qed.
+Lemma fix_right_cons c r : exists c0 r0, fix_right (c :: r) = c0 :: r0.
+Proof. cbn [fix_right]. destruct r; [destruct (ck c)|]; eauto. Qed.
+Lemma last_okb_fix_right r : last_okb (fix_right r) = true.
+Proof.
+  induction r as [|c r IH]; [reflexivity|]. destruct r as [|c' r'].
+  - cbn [fix_right]. destruct (ck c) eqn:E; cbn [last_okb space ck]; now rewrite ?E.
+  - change (fix_right (c :: c' :: r')) with (c :: fix_right (c' :: r')).
+    destruct (fix_right_cons c' r') as (c0 & r0 & E0). rewrite E0 in *. exact IH.
+Qed.
+Lemma first_okb_fix_right r : first_okb r = true -> first_okb (fix_right r) = true.
+Proof.
+  destruct r as [|c r]; [reflexivity|]. cbn [fix_right]. destruct r as [|c' r']; [|auto].
+  cbn [first_okb]. destruct (ck c) eqn:E; cbn [first_okb space ck]; rewrite ?E; auto.
+Qed.
+Lemma row_clean_trim_cells r s e : row_cleanb (trim_cells r s e) = true.
+Proof.
+  unfold row_cleanb, trim_cells. rewrite first_okb_fix_right by apply first_okb_fix_left. now rewrite last_okb_fix_right.
+Qed.
+Lemma first_okb_map_attr m r : first_okb (map (cell_map_attr m) r) = first_okb r.
+Proof. destruct r as [|c r]; reflexivity. Qed.
+Lemma last_okb_map_attr m r : last_okb (map (cell_map_attr m) r) = last_okb r.
+Proof.
+  induction r as [|c r IH]; [reflexivity|]. cbn [map last_okb]. destruct r as [|c' r']; [reflexivity|]. cbn [map] in *. exact IH.
+Qed.
+Lemma row_clean_map_attr m r : row_cleanb (map (cell_map_attr m) r) = row_cleanb r.
+Proof. unfold row_cleanb. now rewrite first_okb_map_attr, last_okb_map_attr. Qed.
+
+Lemma fix_left_idem r : fix_left (fix_left r) = fix_left r.
+Proof. apply fix_left_clean, first_okb_fix_left. Qed.
+Lemma fix_right_idem r : fix_right (fix_right r) = fix_right r.
+Proof. apply fix_right_clean, last_okb_fix_right. Qed.
+Lemma fix_comm r : fix_left (fix_right r) = fix_right (fix_left r).
+Proof.
+  destruct r as [|c r]; [reflexivity|]. destruct r as [|c' r'].
+  - cbn [fix_left fix_right]. destruct (ck c) eqn:E; cbn [fix_left fix_right space ck]; rewrite ?E; reflexivity.
+  - cbn [fix_right]. cbn [fix_left]. destruct (ck c); reflexivity.
+Qed.
+
+Lemma takez_fix_left d x : 0 < d -> takez d (fix_left x) = fix_left (takez d x).
+Proof.
+  intros. unfold takez. destruct (Z.to_nat d) eqn:E; [lia|]. destruct x as [|c x]; [reflexivity|].
+  cbn [fix_left firstn]. destruct (ck c); reflexivity.
+Qed.
+Lemma dropz_fix_left c x : 0 < c -> dropz c (fix_left x) = dropz c x.
+Proof.
+  intros. unfold dropz. destruct (Z.to_nat c) eqn:E; [lia|]. destruct x as [|c0 x]; [reflexivity|].
+  cbn [fix_left]. destruct (ck c0); reflexivity.
+Qed.
+Lemma skipn_fix_right n x : (n < length x)%nat -> skipn n (fix_right x) = fix_right (skipn n x).
+Proof.
+  revert x; induction n as [|n IH]; intros x H; [reflexivity|]. destruct x as [|c x]; [cbn in H; lia|].
+  destruct x as [|c' x']; [cbn in H; lia|]. change (fix_right (c :: c' :: x')) with (c :: fix_right (c' :: x')).
+  cbn [skipn]. apply IH. cbn [length] in *. lia.
+Qed.
+Lemma dropz_fix_right c x : c < zlen x -> dropz c (fix_right x) = fix_right (dropz c x).
+Proof.
+  intros. unfold dropz. destruct (Z.to_nat c) eqn:E; [reflexivity|]. rewrite <- E.
+  apply skipn_fix_right. unfold zlen in *. lia.
+Qed.
+Lemma firstn_fix_right n x : (n < length x)%nat -> firstn n (fix_right x) = firstn n x.
+Proof.
+  revert x; induction n as [|n IH]; intros x H; [reflexivity|]. destruct x as [|c x]; [cbn in H; lia|].
+  destruct x as [|c' x']; [cbn in H; lia|]. change (fix_right (c :: c' :: x')) with (c :: fix_right (c' :: x')).
+  cbn [firstn]. f_equal. apply IH. cbn [length] in *. lia.
+Qed.
+Lemma takez_fix_right d x : d < zlen x -> takez d (fix_right x) = takez d x.
+Proof.
+  intros. unfold takez. destruct (Z_lt_le_dec d 0).
+  - replace (Z.to_nat d) with O by lia. reflexivity.
+  - apply firstn_fix_right. unfold zlen in *. lia.
+Qed.
+
+(* a window of a window is a window *)
+Lemma trim_cells_trim_cells r a b c d :
+  0 <= a -> b <= zlen r -> 0 <= c -> c < d -> d <= b - a ->
+  trim_cells (trim_cells r a b) c d = trim_cells r (a + c) (a + d).
+Proof.
+  intros. unfold trim_cells at 1 3.
+  set (w1 := takez (b - a) (dropz a r)).
+  assert (zlen w1 = b - a) as Hw1 by (subst w1; rewrite zlen_takez, zlen_dropz by lia; lia).
+  assert (takez (d - c) (dropz c w1) = takez (a + d - (a + c)) (dropz (a + c) r)) as Raw.
+  { subst w1. replace (b - a) with (c + (b - a - c)) by lia. rewrite dropz_takez by lia.
+    rewrite takez_takez by lia. rewrite dropz_dropz by lia. f_equal; [lia|f_equal; lia]. }
+  unfold trim_cells. fold w1.
+  assert (zlen (fix_left w1) = b - a) as Hl by (now rewrite zlen_fix_left).
+  destruct (Z.eq_dec c 0) as [->|Hc].
+  - rewrite dropz_le0 by lia. rewrite Z.sub_0_r in *. rewrite dropz_le0 in Raw by lia.
+    destruct (Z.eq_dec d (b - a)) as [->|Hd].
+    + rewrite takez_all by (rewrite zlen_fix_right; lia). rewrite fix_comm, fix_right_idem, fix_left_idem.
+      rewrite <- Raw. rewrite takez_all by lia. reflexivity.
+    + rewrite takez_fix_right by lia. rewrite takez_fix_left by lia. rewrite fix_left_idem. now rewrite Raw.
+  - rewrite dropz_fix_right by lia. rewrite dropz_fix_left by lia.
+    assert (zlen (dropz c w1) = b - a - c) as Hw2 by (rewrite zlen_dropz by lia; lia).
+    destruct (Z.eq_dec d (b - a)) as [->|Hd].
+    + rewrite takez_all by (rewrite zlen_fix_right; lia). rewrite fix_comm, fix_right_idem.
+      rewrite <- Raw. rewrite takez_all by lia. reflexivity.
+    + rewrite takez_fix_right by lia. now rewrite Raw.
+Qed.
+
+Lemma trim_cells_map_attr m r s e : trim_cells (map (cell_map_attr m) r) s e = map (cell_map_attr m) (trim_cells r s e).
+Proof. unfold trim_cells. now rewrite dropz_map, takez_map, fix_left_map_attr, fix_right_map_attr. Qed.
+
+Lemma trim_cells_all r : row_cleanb r = true -> trim_cells r 0 (zlen r) = r.
+Proof.
+  unfold row_cleanb, trim_cells. intros H. apply andb_prop in H as [H1 H2].
+  rewrite dropz_le0 by lia. rewrite takez_all by lia. now rewrite fix_left_clean, fix_right_clean.
+Qed.
+
+(* with clean leaf rows, every row of TextCanvas.content is a window of the leaf row *)
+Lemma text_row_window mc tl cols m r :
+  zlen r = mc -> row_cleanb r = true -> text_row mc tl cols m r = map (cell_map_attr m) (trim_cells r tl (tl + cols)).
+Proof.
+  intros Hl Hc. unfold text_row. destruct (negb (tl =? 0) || (cols <? mc)) eqn:E; [reflexivity|].
+  assert (tl = 0) by lia. assert (cols >= mc) by lia. subst tl. f_equal.
+  unfold row_cleanb in Hc. apply andb_prop in Hc as [H1 H2]. unfold trim_cells.
+  rewrite dropz_le0 by lia. rewrite takez_all by lia. now rewrite fix_left_clean, fix_right_clean.
+Qed.
+
+Lemma rows_of_clean cv : cview_ok cv -> Forall (fun r : row => row_cleanb r = true) (rows_of cv).
+Proof.
+  intros H. destruct (cknd (ccanv cv)) eqn:E.
+  - destruct (cview_ok_text _ _ _ H E) as (Hw & ? & ? & ? & ?).
+    rewrite (rows_of_text _ _ _ H E). apply Forall_forall. intros r Hr. apply in_map_iff in Hr as (r0 & <- & Hr0).
+    assert (Forall (fun r : row => zlen r = maxcol /\ row_cleanb r = true) (takez (crows cv) (dropz (tt cv) rows))) as F
+        by (apply Forall_takez, Forall_dropz, Hw).
+    rewrite Forall_forall in F. destruct (F _ Hr0). rewrite text_row_window by assumption.
+    rewrite row_clean_map_attr. apply row_clean_trim_cells.
+  - rewrite (rows_of_solid _ _ _ _ _ E). unfold solid_content. apply Forall_repeatz.
+    unfold repeatz. destruct (Z.to_nat (ccols cv)) as [|n]; [reflexivity|]. cbn [repeat].
+    unfold row_cleanb. cbn [first_okb ck]. cbn [andb]. induction n; [reflexivity|]. cbn [repeat last_okb] in *. exact IHn.
+  - rewrite (rows_of_blank _ E). unfold solid_content. apply Forall_repeatz.
+    unfold repeatz. destruct (Z.to_nat (ccols cv)) as [|n]; [reflexivity|]. cbn [repeat].
+    unfold row_cleanb. cbn [first_okb ck]. cbn [andb]. induction n; [reflexivity|]. cbn [repeat last_okb] in *. exact IHn.
+Qed.
+
+(* cview_trim_left followed by cview_trim_cols = a window of every row *)
+Definition cview_window (cv : cview) (k c : Z) : cview :=
+  CV (tl cv + k) (tt cv) c (crows cv) (cam cv) (ccanv cv).
+
+Lemma cview_window_ok cv k c : cview_ok cv -> 0 <= k -> 0 < c -> k + c <= ccols cv -> cview_ok (cview_window cv k c).
+Proof.
+  intros H Hk Hc Hkc. unfold cview_ok, cview_okb in *. cbn [cview_window ccols crows ccanv tl tt].
+  destruct (cknd (ccanv cv)); lia.
+Qed.
+
+Lemma solid_window x k c w : 0 <= k -> 0 < c -> k + c <= w -> ck x = KN ->
+  trim_cells (repeatz x w) k (k + c) = repeatz x c.
+Proof.
+  intros. unfold trim_cells. rewrite dropz_repeatz by lia. replace (k + c - k) with c by lia. rewrite takez_repeatz by lia.
+  unfold repeatz. destruct (Z.to_nat c) as [|n] eqn:E; [lia|]. cbn [repeat fix_left]. rewrite H2.
+  clear E. induction n as [|n IHn]; [cbn [repeat fix_right]; now rewrite H2|].
+  change (repeat x (S n)) with (x :: repeat x n). change (fix_right (x :: x :: repeat x n)) with (x :: fix_right (x :: repeat x n)).
+  now rewrite IHn.
+Qed.
+
+Lemma rows_of_window cv k c :
+  cview_ok cv -> 0 <= k -> 0 < c -> k + c <= ccols cv ->
+  rows_of (cview_window cv k c) = map (fun r : row => trim_cells r k (k + c)) (rows_of cv).
+Proof.
+  intros H Hk Hc Hkc. pose proof (cview_window_ok _ _ _ H Hk Hc Hkc) as H'. destruct (cview_ok_pos _ H).
+  destruct (cknd (ccanv cv)) eqn:E.
+  - destruct (cview_ok_text _ _ _ H E) as (Hw & ? & ? & ? & ?).
+    rewrite (rows_of_text _ _ _ H E). rewrite (rows_of_text _ rows maxcol H') by exact E.
+    cbn [cview_window tl tt ccols crows cam]. rewrite map_map. apply map_ext_in. intros r Hr.
+    assert (Forall (fun r : row => zlen r = maxcol /\ row_cleanb r = true) (takez (crows cv) (dropz (tt cv) rows))) as F
+        by (apply Forall_takez, Forall_dropz, Hw).
+    rewrite Forall_forall in F. destruct (F _ Hr). rewrite !text_row_window by assumption.
+    rewrite trim_cells_map_attr. f_equal. rewrite trim_cells_trim_cells by lia. f_equal; lia.
+  - rewrite (rows_of_solid _ _ _ _ _ E). rewrite (rows_of_solid _ cs ch cols rows) by exact E.
+    cbn [cview_window tl tt ccols crows cam]. unfold solid_content. rewrite map_repeatz. f_equal.
+    symmetry. apply solid_window; try lia. reflexivity.
+  - rewrite (rows_of_blank _ E). rewrite rows_of_blank by exact E.
+    cbn [cview_window tl tt ccols crows cam]. unfold solid_content. rewrite map_repeatz. f_equal.
+    symmetry. apply solid_window; try lia. reflexivity.
 Qed.
